@@ -384,7 +384,7 @@ def run_config(pid, cfg, tier, seed, extra=None):
     sys.exit(2)
 
 
-def validate(evidence):
+def validate(evidence, fatal=True):
     try:
         r = subprocess.run(
             ["python3-vt", "-c",
@@ -393,8 +393,11 @@ def validate(evidence):
             stdout=subprocess.PIPE, stderr=subprocess.STDOUT, text=True)
         if r.returncode != 0:
             log(r.stdout[-3000:])
-            log("MACHINERY: evidence file does not validate against the schema")
-            sys.exit(2)
+            if fatal:
+                log("MACHINERY: evidence file does not validate against the schema")
+                sys.exit(2)
+            log("note: the evidence file of this aborted run does not validate (engines died before covering anything); "
+                "the violation verdict stands")
     except FileNotFoundError:
         log("note: python3-vt not found, evidence not schema-validated")
 
@@ -526,8 +529,12 @@ def check(pid, tier):
                                     traces_validated_against_impl=cov["traces_validated_against_impl"])
     os.makedirs(EVID, exist_ok=True)
     path = os.path.join(EVID, f"{pid}.json")
+    if not evidence["coverage"]["samples"]:
+        # every engine died before sampling anything: the cases that killed them are the samples
+        evidence["coverage"]["samples"] = [dict(config=v["config"], family=v["family"], index=v.get("index"), what=v["what"][:300])
+                                           for v in violations[:4]]
     json.dump(evidence, open(path, "w"), indent=1)
-    validate(path)
+    validate(path, fatal=(unlisted == 0))
     for l in known_lines:
         print(l)
     for l in new_lines:
